@@ -141,4 +141,100 @@ example : (take (mE 2 fun p => decide (p ≠ pa)) 100 10 (Gen.new mG) []).map (f
     = some ([pm pb pb], true) := by
   decide +kernel
 
+/-! ### the filter half: liveness (round 2) -/
+section
+variable {S : Type} [DecidableEq S]
+
+/-- **FILTER LIVENESS at the end (positive rule costs, any filter)**: when the generator has stopped, every
+    program of the start symbol ALL OF WHOSE SUB-PROGRAMS ARE ACCEPTED by the filter (`clean`) has been yielded
+    (no merge_program call in the history) -/
+theorem C12_Beap_filter_complete (E : Env S) (hnd : RowsNodup E.G) (hst : StableAfter E) (hprod : Productive E)
+    (hpos : PosW E) (fuel k : Nat) (g : Gen S) (ys : List Prog)
+    (h : take E fuel k (Gen.new E.G) [] = some (g, ys, true))
+    (q : Prog) (x : Rat) (hcl : clean E.filter q = true) (hx : costOf E q E.G.start = some x) : q ∈ ys :=
+  C02_Beap_complete E hnd hst hprod hpos fuel k g ys h q x hcl hx
+
+/-- **FILTER LIVENESS on every prefix** (finite and recursive grammars): when a program of cost `y` has been yielded,
+    every program of strictly smaller cost all of whose sub-programs are accepted has been yielded -/
+theorem C12_Beap_filter_prefix_complete (E : Env S) (hnd : RowsNodup E.G) (hst : StableAfter E) (hprod : Productive E)
+    (hpos : PosW E) (fuel k : Nat) (g : Gen S) (ys : List Prog) (fin : Bool)
+    (h : take E fuel k (Gen.new E.G) [] = some (g, ys, fin))
+    (p q : Prog) (x y : Rat) (hp : p ∈ ys) (hy : costOf E p E.G.start = some y) (hcl : clean E.filter q = true)
+    (hx : costOf E q E.G.start = some x) (hlt : x < y) : q ∈ ys :=
+  prefix_complete E hnd hst hprod hpos fuel k (g, ys, fin) h p q x y hp hy hcl hx hlt
+
+/-- **TERMINATION with a (rejecting) filter, partial form**: as C02_Beap_terminates_partial — the filter only removes
+    programs from the output, so `|lang| + 1` calls of `next` reach the end whenever the run returns (explicit,
+    decidable hypothesis: `take … = some …`) -/
+theorem C12_Beap_filter_terminates_partial (E : Env S) (hnd : RowsNodup E.G) (hst : StableAfter E)
+    (hprod : Productive E) (hpos : PosW E) (lang : List Prog)
+    (hmem : ∀ q x, costOf E q E.G.start = some x → q ∈ lang)
+    (fuel : Nat) (g : Gen S) (ys : List Prog) (fin : Bool)
+    (h : take E fuel (lang.length + 1) (Gen.new E.G) [] = some (g, ys, fin)) : fin = true :=
+  C02_Beap_terminates_partial E hnd hst hprod hpos lang hmem fuel g ys fin h
+end
+
+/-! non-vacuity with the rejecting filter "is not the leaf `a`" on `X -> a | m(Y,Y)`, `Y -> a | b` -/
+def notA : Prog → Bool := fun p => decide (p ≠ pa)
+def mRank (nt : NT Nat Unit) : Nat := if nt = nX then 1 else 0
+
+theorem m_rowsNodup : RowsNodup mG := by
+  intro nt rs h
+  simp only [mG, AList.lookup] at h
+  repeat (first | (split at h; (cases h; decide)) | (simp at h))
+
+theorem m_ranked (f : Prog → Bool) : Ranked (mE 2 f) mRank := by
+  intro nt P rl hr a ha
+  unfold TT.rule? at hr
+  split at hr
+  · cases hr
+  · next rs hrs =>
+    have h1 := AList.lookup_some_mem hrs
+    have h2 := AList.lookup_some_mem hr
+    have h : mG.rules.all (fun r => r.2.all (fun rule => rule.2.1.all (fun a => decide (mRank (ntOf a) < mRank r.1)))) = true := by
+      decide
+    rw [List.all_eq_true] at h
+    have h3 := h _ h1
+    rw [List.all_eq_true] at h3
+    have h4 := h3 _ h2
+    rw [List.all_eq_true] at h4
+    simpa using h4 a ha
+
+theorem m_productive : Productive (mE 2 notA) := by
+  intro nt h
+  by_cases h1 : nt = nX
+  · subst h1; exact ⟨pa, 1, by decide +kernel⟩
+  · by_cases h2 : nt = nY
+    · subst h2; exact ⟨pa, 1, by decide +kernel⟩
+    · simp [mE, mG, AList.lookup, Ne.symm h1, Ne.symm h2] at h
+
+theorem m_posW : PosW (mE 2 notA) := posW_of_check (mE 2 notA) (by decide +kernel)
+theorem m_stable : StableAfter (mE 2 notA) := stableAfter_of_ranked mRank (mE 2 notA) m_rowsNodup (m_ranked notA)
+
+/-- non-vacuity of C12_Beap_filter_complete: the hypotheses hold for the rejecting filter, the generator stops (see
+    the run above: output `[m(b,b)]`), and `m(b,b)` is clean and priced -/
+example : ∃ g ys, take (mE 2 notA) 100 10 (Gen.new mG) [] = some (g, ys, true) ∧ pm pb pb ∈ ys := by
+  have hrun : (take (mE 2 notA) 100 10 (Gen.new mG) []).map (fun r => r.2.2) = some true := by decide +kernel
+  cases hp : take (mE 2 notA) 100 10 (Gen.new mG) [] with
+  | none => simp [hp] at hrun
+  | some r =>
+    obtain ⟨g, ys, fin⟩ := r
+    simp only [hp, Option.map_some, Option.some.injEq] at hrun
+    subst hrun
+    exact ⟨g, ys, rfl, C12_Beap_filter_complete (mE 2 notA) m_rowsNodup m_stable m_productive m_posW 100 10 g ys hp
+      (pm pb pb) 5 (by decide +kernel) (by decide +kernel)⟩
+
+/-- the other clean-looking candidates are not clean: `m(a,b)` contains the rejected `a` -/
+example : clean notA (pm pa pb) = false ∧ clean notA (pm pb pb) = true := by decide +kernel
+
+/-- C12_Beap_filter_prefix_complete / C12_Beap_filter_terminates_partial instantiated with the rejecting filter -/
+example (fuel k : Nat) (g : Gen Nat) (ys : List Prog) (fin : Bool) (h : take (mE 2 notA) fuel k (Gen.new mG) [] = some (g, ys, fin))
+    (p q : Prog) (x y : Rat) (hp : p ∈ ys) (hy : costOf (mE 2 notA) p nX = some y) (hcl : clean notA q = true)
+    (hx : costOf (mE 2 notA) q nX = some x) (hlt : x < y) : q ∈ ys :=
+  C12_Beap_filter_prefix_complete (mE 2 notA) m_rowsNodup m_stable m_productive m_posW fuel k g ys fin h p q x y hp hy hcl hx hlt
+
+example (lang : List Prog) (hmem : ∀ q x, costOf (mE 2 notA) q nX = some x → q ∈ lang) (fuel : Nat) (g : Gen Nat) (ys : List Prog)
+    (fin : Bool) (h : take (mE 2 notA) fuel (lang.length + 1) (Gen.new mG) [] = some (g, ys, fin)) : fin = true :=
+  C12_Beap_filter_terminates_partial (mE 2 notA) m_rowsNodup m_stable m_productive m_posW lang hmem fuel g ys fin h
+
 end PS.C12Beap
